@@ -1,5 +1,6 @@
 //! C04: reverse-mode automatic differentiation with Record.
 //!   (4 1 ty body outputs)          the language is documented in coq/theories/Run/RunC04.v
+//!   (4 2 body outputs)             float oracle (f64, checked on the Rust side, flags only)
 //! Every program is executed six times on fresh tapes: all operators through ownership form
 //! 0 (ref op ref), 1 (value op value), 2 (value op ref), 3 (ref op value), a per-instruction
 //! mix, and with the other operand KIND (record op number <-> record op constant-record,
@@ -23,11 +24,20 @@ pub fn run(args: &[Sx]) -> Sx {
             let Some(ty) = args[1].i64() else { return bad_case() };
             with_ty!(ty, go(&args[2], &args[3]))
         }
+        // float oracle: (4 2 body outputs), numbers (m e) = m * 2^e as f64; every variable is seeded in
+        // turn; result: three 0/1 flags (forms agree, forward == reverse, numbers == plain f64)
+        Some(2) if args.len() == 3 => {
+            let Some(prog) = parse_prog_with::<f64>(&args[1], &dec_f64) else { return bad_case() };
+            let Some(outs) = parse_outs(&args[2], prog.len()) else { return bad_case() };
+            let seeds = var_nodes(&prog);
+            let (a, b, c) = float_oracle(&prog, &outs, &seeds);
+            l(vec![boolean(a), boolean(b), boolean(c)])
+        }
         _ => bad_case(),
     }
 }
 
-fn observe<'a, T: Num>(nodes: &[Record<'a, T>], vars: &[usize], outs: &[usize]) -> Result<Sx, i64>
+fn observe<'a, T: Num + Enc>(nodes: &[Record<'a, T>], vars: &[usize], outs: &[usize]) -> Result<Sx, i64>
 where
     for<'t> &'t T: RealRef<T>,
 {
@@ -76,7 +86,7 @@ where
     Ok(l(vec![l(res), l(vars.iter().map(|&v| z(nodes[v].index)).collect())]))
 }
 
-fn go<T: Num>(body: &Sx, outs: &Sx) -> Sx
+fn go<T: Num + Enc>(body: &Sx, outs: &Sx) -> Sx
 where
     for<'t> &'t T: RealRef<T>,
 {
